@@ -110,7 +110,9 @@ def far_from(x, r):
     if t is UUID:
         return UUID(int=(x.int ^ 0xFF), version=4)
     if t is datetime:
-        return x + timedelta(seconds=1)
+        from datetime import timezone
+        twin = x.replace(tzinfo=None) if x.tzinfo is not None else x.replace(tzinfo=timezone.utc)
+        return r.choice((x + timedelta(seconds=1), twin, x.replace(microsecond=(x.microsecond + 1) % 10 ** 6)))
     if t is date:
         return x + timedelta(days=1)
     if t is list:
@@ -368,6 +370,26 @@ class Prop(BaseProp):
             finally:
                 P.note_clock()
             self.outputs.append((schedule, g, list(w.log)))
+            # (f) usable: the result accepts what it generates itself
+            try:
+                own = P.validate(r_sch, g).get_errors()
+            except Exception as e:
+                own = [e]
+            if own:
+                c = S.localise_invalid(r_sch, g, P.validate)
+                if self.s_reprs is None:
+                    self.s_reprs = P._node_reprs(s_sch)
+                try:
+                    inherited = repr(c) in self.s_reprs
+                except Exception:
+                    inherited = False
+                if inherited:
+                    if self.count:
+                        P.probes["own_output_rejected_inherited_from_S"] += 1
+                else:
+                    self.add("f:result_rejects_its_own_generated_value", "fake",
+                             "generated=%s errors=%s" % (canon(g)[:160], [type(e).__name__ for e in own][:3]), schedule)
+                    return w.draws
             bad = carries(g, v)
             if bad is not None:
                 self.add("c:generated_value_does_not_carry", "fake",
@@ -412,7 +434,7 @@ class Prop(BaseProp):
             return False
         pair._seed = case["seed"]
         pair.static()
-        if f["phase"] == "fake" or f["outcome"].startswith("d:"):
+        if f["phase"] == "fake" or f["outcome"].startswith("d:") or f["outcome"].startswith("f:"):
             for pol in ("lo", "hi"):
                 pair.dyn(Schedule(pol, seed=0))
             pair.dyn(Schedule.from_json(f["schedule"]))
